@@ -2,7 +2,7 @@
 # tools/validate_seed.sh <src-dir with patch.diff demo.py notes.md> <seed-id> <property>
 # Confirms in a scratch worktree of /repo HEAD: patch applies, pinned suite still 403 passed, demo fails with / passes without.
 # On success copies into /verif/seeded/<seed-id>/ and writes meta.json (checks_detecting is filled in later).
-SRC="$1"; ID="$2"; PROP="$3"
+SRC="$(readlink -f "$1")"; ID="$2"; PROP="$3"
 HERE="$(cd "$(dirname "$0")/.." && pwd)"
 WT="$(mktemp -d /tmp/pyvc-seed-XXXXXX)"
 git -C /repo worktree add -q --detach "$WT/repo" HEAD || exit 3
@@ -15,8 +15,10 @@ REPO_UNDER_TEST=/repo /venv/bin/python "$SRC/demo.py" > "$WT/without.out" 2>&1; 
 echo "$ID: suite='$PASSED' demo_with=$RC_WITH demo_without=$RC_WITHOUT"
 if [ "$N" = "403" ] && [ "$RC_WITH" != "0" ] && [ "$RC_WITHOUT" = "0" ]; then
   mkdir -p "$HERE/seeded/$ID"
-  cp "$SRC/patch.diff" "$SRC/demo.py" "$HERE/seeded/$ID/"
-  [ -f "$SRC/notes.md" ] && cp "$SRC/notes.md" "$HERE/seeded/$ID/"
+  if [ "$SRC" != "$HERE/seeded/$ID" ]; then
+    cp "$SRC/patch.diff" "$SRC/demo.py" "$HERE/seeded/$ID/"
+    [ -f "$SRC/notes.md" ] && cp "$SRC/notes.md" "$HERE/seeded/$ID/"
+  fi
   /venv/bin/python - "$HERE/seeded/$ID" "$PROP" "$PASSED" "$RC_WITH" "$RC_WITHOUT" <<'PY'
 import json, sys, os
 d, prop, passed, w, wo = sys.argv[1:]
@@ -27,6 +29,11 @@ meta = {"property": prop, "source": "independent sub-agent given only the proper
                       "demo_exit_with_change": int(w), "demo_exit_without_change": int(wo),
                       "how": "tools/validate_seed.sh: scratch git worktree, git apply, pinned pytest command, demo.py with REPO_UNDER_TEST"},
         "checks_detecting": []}
+if os.path.exists(os.path.join(d, "meta.json")):
+    old = json.load(open(os.path.join(d, "meta.json")))
+    for k in ("related", "checks_detecting", "checks_run"):
+        if k in old:
+            meta[k] = old[k]
 json.dump(meta, open(os.path.join(d, "meta.json"), "w"), indent=1)
 PY
   echo "$ID: KEPT"
